@@ -1,4 +1,6 @@
-(* C11 — lemmas: the four refutation witnesses (faithful model vs spec, by computation). *)
+(* C11 — regression examples: the witnesses of the four former defect classes (repaired by the
+   fix: commits in /repo) and of the former idempotence failures, now computed correctly by the
+   model of the repaired code. *)
 From Coq Require Import ZArith List Bool.
 From Zix Require Import PathNormSpec PathNormModel.
 Import ListNotations.
@@ -7,43 +9,22 @@ Local Open Scope Z_scope.
 Definition a_ : Z := 97.
 Definition x_ : Z := 120.
 
-(* "//./a" -> "/./a" (std: "/a") *)
+(* "//./a" (old code: "/./a") *)
 Definition witness_A : list Z := [SEP; SEP; DOT; SEP; a_].
-(* "x/.../.." -> "." (std: "x/") *)
+(* "x/.../.." (old code: ".") *)
 Definition witness_B : list Z := [x_; SEP; DOT; DOT; DOT; SEP; DOT; DOT].
-(* "a../" -> "a.." (std: "a../") *)
+(* "a../" (old code: "a..") *)
 Definition witness_C : list Z := [a_; DOT; DOT; SEP].
-(* "../." -> "../" (std: "..") *)
+(* "../." (old code: "../") and "/../." (old code: "/.") *)
 Definition witness_D : list Z := [DOT; DOT; SEP; DOT].
-
-(* in exactly one class each *)
-Definition only (k : nat) (s : list Z) : bool :=
-  Bool.eqb (class_A s) (Nat.eqb k 0) && Bool.eqb (class_B s) (Nat.eqb k 1) &&
-  Bool.eqb (class_C s) (Nat.eqb k 2) && Bool.eqb (class_D s) (Nat.eqb k 3).
-
-Lemma refute_A : only 0 witness_A = true /\ zix_normal witness_A = [SEP; DOT; SEP; a_] /\
-  peqb (zix_normal witness_A) (std_normal witness_A) = false /\ is_normal_form (zix_normal witness_A) = false.
-Proof. vm_compute. repeat split; reflexivity. Qed.
-
-Lemma refute_B : only 1 witness_B = true /\ zix_normal witness_B = [DOT] /\
-  std_normal witness_B = [x_; SEP] /\
-  peqb (zix_normal witness_B) (std_normal witness_B) = false.
-Proof. vm_compute. repeat split; reflexivity. Qed.
-
-Lemma refute_C : only 2 witness_C = true /\ zix_normal witness_C = [a_; DOT; DOT] /\
-  peqb (zix_normal witness_C) (std_normal witness_C) = false.
-Proof. vm_compute. repeat split; reflexivity. Qed.
-
-Lemma refute_D : only 3 witness_D = true /\ zix_normal witness_D = [DOT; DOT; SEP] /\
-  peqb (zix_normal witness_D) (std_normal witness_D) = false /\ is_normal_form (zix_normal witness_D) = false.
-Proof. vm_compute. repeat split; reflexivity. Qed.
-
-(* idempotence fails outside the proved class: "//./" -> "/./" -> "/" (class A) *)
+Definition witness_D2 : list Z := [SEP; DOT; DOT; SEP; DOT].
+(* "//./" (old code: "/./", and "/" when applied again) *)
 Definition witness_idem : list Z := [SEP; SEP; DOT; SEP].
-Lemma refute_idem : zix_normal witness_idem = [SEP; DOT; SEP] /\ zix_normal (zix_normal witness_idem) = [SEP] /\
-  class_A witness_idem = true.
-Proof. vm_compute. repeat split; reflexivity. Qed.
 
-(* an already normal path is changed: "a../" is a normal form, zix returns "a.." (class C) *)
-Lemma refute_fixed : is_normal_form witness_C = true /\ peqb (zix_normal witness_C) witness_C = false.
-Proof. vm_compute. split; reflexivity. Qed.
+Lemma former_witnesses :
+  zix_normal witness_A = [SEP; a_] /\ zix_normal witness_B = [x_; SEP] /\
+  zix_normal witness_C = witness_C /\ zix_normal witness_D = [DOT; DOT] /\
+  zix_normal witness_D2 = [SEP] /\ zix_normal witness_idem = [SEP] /\
+  forallb (fun w => bytes_eqb (zix_normal w) (std_normal w))
+          [witness_A; witness_B; witness_C; witness_D; witness_D2; witness_idem] = true.
+Proof. vm_compute. repeat split; reflexivity. Qed.
